@@ -2,6 +2,7 @@ package main
 
 import (
 	"context"
+	"errors"
 	"fmt"
 	"math"
 	"math/rand"
@@ -50,7 +51,7 @@ func init() {
 			"ground truth from the harness' own operation log; (b) Failover/FailoverOf over a named wrapped backend driven by the C01 case generator (steered and free, no fault injection), ground truth from the event log " +
 			"(backend reads by result class, writes, builder invocations, failing ones, refresh writes, failure-cache writes); oracle at quiescence per name label, per metric and for the documented sums; " +
 			"distinct_nontrivial = distinct (family, backend/config, metric-vector) outcomes with at least 3 non-zero metrics",
-		Required:    []string{"a.sequential", "a.concurrent", "a.bulk_phases", "eviction.cases", "b.runs", "c.conservation", "d.panicking_builder_runs", "metric.cache_hit", "metric.cache_miss", "metric.cache_expired", "metric.cache_write", "metric.cache_delete", "metric.cache_build", "metric.cache_failed", "metric.cache_refreshed", "expireall.entries", "deleteall.entries"},
+		Required:    []string{"a.sequential", "a.concurrent", "a.bulk_phases", "eviction.cases", "b.runs", "c.conservation", "d.panicking_builder_runs", "metric.cache_hit", "metric.cache_miss", "metric.cache_expired", "metric.cache_write", "metric.cache_delete", "metric.cache_build", "metric.cache_failed", "metric.cache_refreshed", "expireall.entries", "deleteall.entries", "refresh_boundary.refreshes"},
 		Assumptions: []string{"evictions are off (no limits, janitor interval 1h) except in the eviction family, which only asserts cache_delete == successful Delete calls", "cache_refreshed is emitted before the refresh write: counted as attempts seen by the wrapper (workloads inject no backend faults, so attempts == re-stores)"},
 		Timeout:     func(string) time.Duration { return 45 * time.Minute },
 	})
@@ -70,6 +71,9 @@ func runC18(b *Batch) {
 			c18PanickingBuilder(b, i)
 			if i%48 == 3 {
 				c18Eviction(b, i)
+			}
+			if i%96 == 9 {
+				c18RefreshBoundary(b, i)
 			}
 		default:
 			c18Failover(b, i)
@@ -550,5 +554,69 @@ func c18Eviction(b *Batch, idx int) {
 	w := map[string]interface{}{"backend": kind, "limit": L, "written": n, "long_expired": nDead, "explicit_deletes": del}
 	if got := l.get("cache_delete{ev}"); got != float64(del) {
 		b.R.Violate(b, idx, "C18:backend/"+kind+":cache_delete-counts-evictions", fmt.Sprintf("%s: cache_delete = %v after %d successful Delete calls (evictions by the janitor: cache_evict = %v, %d long-expired entries cleaned up)", kind, got, del, l.get("cache_evict{ev}"), nDead), w)
+	}
+}
+
+type c18SlowStats struct {
+	*ledger
+	delay time.Duration
+}
+
+func (s c18SlowStats) Add(ctx context.Context, name string, inc float64, labels ...string) {
+	s.ledger.Add(ctx, name, inc, labels...)
+	if name == cache.MetricRefreshed {
+		time.Sleep(s.delay) // a slow metrics sink: time passes between the count and the store
+	}
+}
+
+type c18CountingRW struct {
+	rw      cache.ReadWriter
+	refresh *int64
+	updTTL  time.Duration
+}
+
+func (c c18CountingRW) Read(ctx context.Context, k []byte) (interface{}, error) { return c.rw.Read(ctx, k) }
+func (c c18CountingRW) Write(ctx context.Context, k []byte, v interface{}) error {
+	if cache.TTL(ctx) == c.updTTL {
+		atomic.AddInt64(c.refresh, 1)
+	}
+	return c.rw.Write(ctx, k, v)
+}
+
+// c18RefreshBoundary: cache_refreshed counts the stale re-stores - also when the stale value crosses MaxStaleness while the
+// Get is on its way (a slow metrics sink makes that window wide). Whatever the Get decides, the count equals the re-stores
+// the backend has seen.
+func c18RefreshBoundary(b *Batch, idx int) {
+	rng := rand.New(rand.NewSource(b.CaseSeed(idx) ^ 0x1f3d))
+	ms := time.Duration(20+rng.Intn(20)) * time.Millisecond
+	const upd = 77 * time.Second
+	l := &ledger{m: map[string]float64{}}
+	var refreshWrites int64
+	kind := []string{"ShardedMap", "SyncMap"}[rng.Intn(2)]
+	be := newBackend(kind, cache.Config{})
+	var rw cache.ReadWriter
+	switch a := be.(type) {
+	case smAdapter:
+		rw = a.m
+	case syAdapter:
+		rw = a.m
+	}
+	f := cache.NewFailover(cache.FailoverConfig{Name: "rb", Backend: c18CountingRW{rw: rw, refresh: &refreshWrites, updTTL: upd}, Stats: c18SlowStats{l, 2 * ms},
+		MaxStaleness: ms, UpdateTTL: upd, SyncUpdate: rng.Intn(2) == 0, FailedUpdateTTL: -1}.Use)
+	n := 2 + rng.Intn(4)
+	for i := 0; i < n; i++ {
+		key := []byte(fmt.Sprintf("rb-%d", i))
+		_ = rw.Write(cache.WithTTL(bg, -ms/2, false), key, "stale") // expired, still inside MaxStaleness for another ms/2
+		_, _ = f.Get(bg, key, func(context.Context) (interface{}, error) { return nil, errors.New("source down") })
+	}
+	time.Sleep(5 * time.Millisecond)
+	b.R.Eval()
+	b.R.Count("refresh_boundary.cases", 1)
+	got := l.get("cache_refreshed{rb}")
+	b.R.Count("refresh_boundary.refreshes", int64(got))
+	b.R.Nontrivial(fmt.Sprintf("refresh-boundary/%s/ms=%v", kind, ms/(10*time.Millisecond)*10*time.Millisecond))
+	if got != float64(atomic.LoadInt64(&refreshWrites)) {
+		b.R.Violate(b, idx, "C18:failover/Failover:cache_refreshed-vs-restores", fmt.Sprintf("cache_refreshed = %v but the backend saw %d stale re-stores (MaxStaleness %v, value expired %v before the Get, metrics sink takes %v per call)", got, atomic.LoadInt64(&refreshWrites), ms, ms/2, 2*ms),
+			map[string]interface{}{"max_staleness": ms.String(), "gets": n})
 	}
 }
